@@ -167,6 +167,19 @@ func Ite(c, a, b *Term) *Term {
 }
 
 func Bin(s *Sort, op string, a, b *Term) *Term {
+	// constant folding on small numerals keeps path conditions decidable syntactically
+	if (op == "+" || op == "-") && isNumeral(a.S) && isNumeral(b.S) && !strings.HasPrefix(a.S, "(") && !strings.HasPrefix(b.S, "(") && len(a.S) < 9 && len(b.S) < 9 {
+		var x, y int64
+		fmt.Sscanf(a.S, "%d", &x)
+		fmt.Sscanf(b.S, "%d", &y)
+		if op == "+" {
+			return IntLit(x + y)
+		}
+		return IntLit(x - y)
+	}
+	if op == "+" && b.S == "0" {
+		return a
+	}
 	return T(s, "("+op+" "+a.S+" "+b.S+")")
 }
 
